@@ -12,7 +12,7 @@ SPEC = {
         "C03.detFromQaz_complete", "C03.filter_keeps_exact", "C03.hklMatches_exact", "C03.allOrNothing",
         "C03.asin_roots_complete", "C03.acos_roots_complete"],
         "DiffcalcProofs.Props.C03Sample": ["C03.inner_of_sampleSpec", "C03.sameAngle_of_rot", "C03.sampleConMuEta_complete", "C03.sampleConMuEta_total",
-                                           "C03.atan_roots_complete", "C03.omegaBisect_complete"]},
+                                           "C03.atan_roots_complete", "C03.omegaBisect_complete", "C03.muBisect_complete"]},
     "level": "proof",
     "rule": "all 185 implemented modes: a random physical position P over (-180,180]^6 (constructed to satisfy the void / bisect / omega constraints where the "
             "mode has them), its constraint values read off with independent geometric pseudo-angles, hkl = forward model of P; P must be a regular point "
@@ -62,9 +62,12 @@ def correspondence(ctx):
     PL.correspondence_stream(ctx, "candidates(__calc_hkl_to_position)", reqs, "h2p")
 
 
-def mode_class(tr):
+def mode_class(tr, vals=None, outcome=None):
     if "naz" in tr and any(n in tr for n in ("bin_eq_bout", "betain", "betaout")):
         return "naz+surface-reference"
+    if vals is not None and "psi" in tr and outcome == "dce" and abs(math.sin(math.radians(vals["psi"]))) < 2e-6:
+        # psi within 1e-4 deg of 0 / 180, where the +psi and -psi roots of eq (25) coincide (recorded known finding)
+        return "psi-turning-point"
     return "other"
 
 
@@ -91,7 +94,7 @@ def oracle(ctx, widen=1):
                           f"{ {k: (v if v is True else round(v, 5)) for k, v in vals.items()} } and hkl {tuple(round(x, 5) for x in hkl)}: {bad}",
                           {"constraints": vals, "hkl": list(hkl), "P": P, "UB": np.asarray(ub.UB).tolist(), "n_phi": PL.vectors(ub)[0].tolist(),
                            "surf_nphi": PL.vectors(ub)[1].tolist()},
-                          {"kind": "roundtrip", "mode_class": mode_class(tr), "mode": ",".join(tr)})
+                          {"kind": "roundtrip", "mode_class": mode_class(tr, vals, res[0]), "mode": ",".join(tr)})
     ctx.stream("oracle:round-trip", len(reqs), len(recovered), modes=len(PL.modes()))
 
 
